@@ -73,9 +73,9 @@ Proof.
       destruct (Z.leb_spec (Z.of_nat a) (Z.of_nat (S z') - 1)); try lia;
       destruct (Z.leb_spec (Z.of_nat (S z') - 1) (Z.of_nat (length line))); try lia; cbn [andb bind of_rres]; try reflexivity.
     unfold slice. replace (Z.to_nat (Z.of_nat (S z') - 1 - Z.of_nat a)) with (z' - a)%nat by lia. rewrite Nat2Z.id.
-    destruct (gf_join g && negb (blast b)); cbn [of_rres app]; rewrite ?app_nil_r; reflexivity.
+    destruct (gf_join g), (blast b); cbn [andb negb of_rres app]; rewrite ?app_nil_r; reflexivity.
   - unfold fallback_for. destruct (bfb b) as [f|]; cbn [bind opt_unwrap of_rres].
-    + destruct (gf_join g && negb (blast b)); cbn [app]; rewrite ?app_nil_r; reflexivity.
+    + destruct (gf_join g), (blast b); cbn [andb negb app]; rewrite ?app_nil_r; reflexivity.
     + destruct (gf_fallback g) as [f|]; cbn [of_rres]; [|reflexivity].
-      destruct (gf_join g && negb (blast b)); cbn [app]; rewrite ?app_nil_r; reflexivity.
+      destruct (gf_join g), (blast b); cbn [andb negb app]; rewrite ?app_nil_r; reflexivity.
 Qed.
